@@ -266,6 +266,10 @@ def configs(tier):
                 out.append(dict(kind='jump', blocks=names, t0=DAY + 11 * 3600 * US + 30 * 60 * US,
                                 span=5 * 3600 * US, read_lat=1, utc=False,
                                 actions=(('jump', when, j),)))
+    if tier == 'thorough':
+        for c in out:
+            c.setdefault('max_dev', 2)      # up to two wake-up latency deviations per execution
+            c.setdefault('max_execs', 20000)
     return out
 
 
